@@ -26,61 +26,10 @@ fn all_strings(alphabet: &[char], max_len: usize) -> Vec<String> {
 
 pub fn gen_c01(out: &mut dyn Write, thorough: bool, seed: u64) {
     let mut r = Rng::new(seed);
-    // cancelling entries: a longer entry whose weights are exactly the negated weights of the entry it ends with, so that the
-    // two sum to zero wherever the longer one occurs (an entry with all-zero *merged* weights is not a no-op: the automaton
-    // reports only the longest entry per end position, and that entry stands for all of its suffixes)
-    for k in 0..(if thorough { 200 } else { 40 }) {
-        let w = 1 + (k % 4) as u8;          // windows 1..4 (type window 4: the automaton scorer, not the cache)
-        let alpha = [['都', '京', '東', 'に'], ['a', 'b', '1', ' '], ['𠮷', 'あ', 'カ', 'z']][k % 3];
-        let short: String = alpha[..1 + r.below(2.min(2 * w as usize - 1).max(1))].iter().collect();
-        let long: String = format!("{}{}", alpha[3 - r.below(2)], short);
-        let (ls, ll) = (short.chars().count(), long.chars().count());
-        let mut m = AbsModel { char_w: w, type_w: w, bias: r.range(-3, 3) as i32, ..Default::default() };
-        match k % 3 {
-            0 => {
-                // dictionary words: weights are aligned at the END of the word
-                let ws: Vec<i32> = (0..=ls).map(|_| r.range(1, 9) as i32).collect();
-                let mut wl = vec![0i32; ll + 1];
-                for (i, x) in ws.iter().enumerate() {
-                    wl[ll - ls + i] = -x;
-                }
-                m.dict.push((short.clone(), ws, String::new()));
-                m.dict.push((long.clone(), wl, String::new()));
-                m.dict.push((alpha[2].to_string(), vec![3, -4], String::new()));
-            }
-            1 if ll <= 2 * w as usize => {
-                // character n-grams: weight vectors are aligned at their START; the shorter one covers more positions
-                let n_s = 2 * w as usize - ls + 1;
-                let n_l = 2 * w as usize - ll + 1;
-                let mut ws: Vec<i32> = (0..n_s).map(|_| r.range(1, 9) as i32).collect();
-                for x in ws.iter_mut().skip(n_l) {
-                    *x = 0;
-                }
-                let wl: Vec<i32> = ws[..n_l].iter().map(|x| -x).collect();
-                m.char_ngrams.push((short.clone(), ws));
-                m.char_ngrams.push((long.clone(), wl));
-                m.char_ngrams.push((alpha[2].to_string(), (0..2 * w as usize).map(|i| i as i32 - 1).collect()));
-            }
-            2 if ll <= 2 * w as usize => {
-                let ty = |s: &str| -> Vec<u8> { s.chars().map(|c| vaporetto::CharacterType::get_type(c) as u8).collect() };
-                let (ts, tl) = (ty(&short), ty(&long));
-                if tl.ends_with(&ts) && tl != ts {
-                    let n_s = 2 * w as usize - ls + 1;
-                    let n_l = 2 * w as usize - ll + 1;
-                    let mut ws: Vec<i32> = (0..n_s).map(|_| r.range(1, 9) as i32).collect();
-                    for x in ws.iter_mut().skip(n_l) {
-                        *x = 0;
-                    }
-                    let wl: Vec<i32> = ws[..n_l].iter().map(|x| -x).collect();
-                    m.type_ngrams.push((ts, ws));
-                    m.type_ngrams.push((tl, wl));
-                }
-                m.char_ngrams.push((alpha[2].to_string(), (0..2 * w as usize).map(|i| i as i32 - 1).collect()));
-            }
-            _ => continue,
-        }
+    // cancelling entries (see `cancelling`)
+    for (m, texts) in cancelling(&mut r, thorough) {
         let mt = m.to_text();
-        for t in [format!("{}{long}{}", alpha[2], alpha[3]), format!("{long}{short}{long}"), format!("{short}{}{long}", alpha[2])] {
+        for t in texts {
             writeln!(out, "H {CFG} {mt}^00 Fraw:{},pred:0,obs:SB,spec:0 c01", hexs(&t)).unwrap();
         }
     }
@@ -217,6 +166,66 @@ pub fn gen_c01(out: &mut dyn Write, thorough: bool, seed: u64) {
         let text: String = text.chars().take(len).collect();
         writeln!(out, "H {CFG} {}^00 Fraw:{},pred:0,obs:SB,spec:0 c01", m.to_text(), hexs(&text)).unwrap();
     }
+}
+
+/// cancelling entries: a longer entry whose weights are exactly the negated weights of the entry it ends with, so that the
+/// two sum to zero wherever the longer one occurs (an entry with all-zero *merged* weights is not a no-op: the automaton
+/// reports only the longest entry per end position, and that entry stands for all of its suffixes)
+pub fn cancelling(r: &mut Rng, thorough: bool) -> Vec<(AbsModel, Vec<String>)> {
+    let mut res: Vec<(AbsModel, Vec<String>)> = vec![];
+    for k in 0..(if thorough { 200 } else { 40 }) {
+        let w = 1 + (k % 4) as u8;          // windows 1..4 (type window 4: the automaton scorer, not the cache)
+        let alpha = [['都', '京', '東', 'に'], ['a', 'b', '1', ' '], ['𠮷', 'あ', 'カ', 'z']][k % 3];
+        let short: String = alpha[..1 + r.below(2.min(2 * w as usize - 1).max(1))].iter().collect();
+        let long: String = format!("{}{}", alpha[3 - r.below(2)], short);
+        let (ls, ll) = (short.chars().count(), long.chars().count());
+        let mut m = AbsModel { char_w: w, type_w: w, bias: r.range(-3, 3) as i32, ..Default::default() };
+        match k % 3 {
+            0 => {
+                // dictionary words: weights are aligned at the END of the word
+                let ws: Vec<i32> = (0..=ls).map(|_| r.range(1, 9) as i32).collect();
+                let mut wl = vec![0i32; ll + 1];
+                for (i, x) in ws.iter().enumerate() {
+                    wl[ll - ls + i] = -x;
+                }
+                m.dict.push((short.clone(), ws, String::new()));
+                m.dict.push((long.clone(), wl, String::new()));
+                m.dict.push((alpha[2].to_string(), vec![3, -4], String::new()));
+            }
+            1 if ll <= 2 * w as usize => {
+                // character n-grams: weight vectors are aligned at their START; the shorter one covers more positions
+                let n_s = 2 * w as usize - ls + 1;
+                let n_l = 2 * w as usize - ll + 1;
+                let mut ws: Vec<i32> = (0..n_s).map(|_| r.range(1, 9) as i32).collect();
+                for x in ws.iter_mut().skip(n_l) {
+                    *x = 0;
+                }
+                let wl: Vec<i32> = ws[..n_l].iter().map(|x| -x).collect();
+                m.char_ngrams.push((short.clone(), ws));
+                m.char_ngrams.push((long.clone(), wl));
+                m.char_ngrams.push((alpha[2].to_string(), (0..2 * w as usize).map(|i| i as i32 - 1).collect()));
+            }
+            2 if ll <= 2 * w as usize => {
+                let ty = |s: &str| -> Vec<u8> { s.chars().map(|c| vaporetto::CharacterType::get_type(c) as u8).collect() };
+                let (ts, tl) = (ty(&short), ty(&long));
+                if tl.ends_with(&ts) && tl != ts {
+                    let n_s = 2 * w as usize - ls + 1;
+                    let n_l = 2 * w as usize - ll + 1;
+                    let mut ws: Vec<i32> = (0..n_s).map(|_| r.range(1, 9) as i32).collect();
+                    for x in ws.iter_mut().skip(n_l) {
+                        *x = 0;
+                    }
+                    let wl: Vec<i32> = ws[..n_l].iter().map(|x| -x).collect();
+                    m.type_ngrams.push((ts, ws));
+                    m.type_ngrams.push((tl, wl));
+                }
+                m.char_ngrams.push((alpha[2].to_string(), (0..2 * w as usize).map(|i| i as i32 - 1).collect()));
+            }
+            _ => continue,
+        }
+        res.push((m, vec![format!("{}{long}{}", alpha[2], alpha[3]), format!("{long}{short}{long}"), format!("{short}{}{long}", alpha[2])]));
+    }
+    res
 }
 
 /// sparse weight vectors at wide windows: only the first k / the last k / one position carries a weight (k around the
@@ -675,6 +684,14 @@ pub fn gen_c13(out: &mut dyn Write, thorough: bool, seed: u64) {
         let mt = m.to_text();
         for t in texts.iter().skip(k % 2).step_by(2) {
             writeln!(out, "F @ {mt} 0 {}", hexs(t)).unwrap();
+        }
+    }
+    // entries that cancel their suffixes: every scorer variant must agree on them (the cached type scorer never merges,
+    // the automaton scorers do)
+    for (m, texts) in cancelling(&mut r, thorough) {
+        let mt = m.to_text();
+        for t in texts {
+            writeln!(out, "F @ {mt} 0 {}", hexs(&t)).unwrap();
         }
     }
     let n_models = if thorough { 3000 } else { 300 };
